@@ -62,7 +62,7 @@ YT_ROUTES = {".", "..", "watch", "embed", "v", "video", "shorts", "channel", "us
 
 
 import re as _re
-_SAFE = _re.compile(r"^[A-Za-z0-9._~@+-]*$")
+_SAFE = _re.compile(r"^[A-Za-z0-9._~@-]*$")
 
 
 def _eq(a, b):
@@ -97,7 +97,7 @@ def eval_facebook(case, out):
         fields = [getattr(rec, s) for s in rec.__slots__ if s in ("handle", "parent_handle", "group_handle")]
         route_word = any(f in FB_ROUTES or (f or "").endswith(".php") for f in fields if f)
         unsafe = any(isinstance(getattr(rec, s), str) and not _SAFE.match(getattr(rec, s)) for s in rec.__slots__)
-        relname = "C19/facebook/roundtrip/route-word-handle" if route_word else (
+        relname = "C19/facebook/roundtrip/route-word-handle/%s" % type(rec).__name__ if route_word else (
             "C19/facebook/roundtrip/unsafe-chars" if unsafe else "C19/facebook/roundtrip/%s" % type(rec).__name__)
         out.append((relname, "parse_facebook_url(%r)=%r; its .url %r re-parses to %r" % (url, rec, curl, again)))
     return True
@@ -129,7 +129,7 @@ def eval_youtube(case, out):
             route = any(n and (n.lower() in YT_ROUTES or n.startswith("@") or "/" in n) for n in names)
             fields = [x for x in (tuple(r1) if r1 is not None else ()) if isinstance(x, str)]
             unsafe = any(not _SAFE.match(x) for x in fields)
-            out.append(("C19/youtube/roundtrip/route-word-handle" if route else "C19/youtube/roundtrip/unsafe-chars" if unsafe else "C19/youtube/roundtrip",
+            out.append(("C19/youtube/roundtrip/route-word-handle/%s" % type(r1).__name__ if route else "C19/youtube/roundtrip/unsafe-chars" if unsafe else "C19/youtube/roundtrip",
                         "parse_youtube_url(%r)=%r but parse(normalize_youtube_url=%r)=%r" % (url, r1, norm, r2)))
         if ok3 and n2 != norm:
             names = [getattr(r1, "name", None)] if (ok1 and r1 is not None) else []
@@ -202,7 +202,7 @@ def eval_google(case, out):
         if ok2:
             ok3, again = _guard(out, "google", "parse_google_drive_url", G.parse_google_drive_url, curl)
             if ok3 and not _eq(again, rec):
-                out.append(("C19/google/roundtrip/route-word-handle" if rec.id in ("pub", "e", "d") else
+                out.append(("C19/google/roundtrip/route-word-handle/%s" % type(rec).__name__ if rec.id in ("pub", "e", "d") else
                             "C19/google/roundtrip/unsafe-chars" if not _SAFE.match(rec.id) else "C19/google/roundtrip", "parse_google_drive_url(%r)=%r; its .url %r re-parses to %r" % (url, rec, curl, again)))
             _guard(out, "google", "get_export_url", rec.get_export_url)
     return ok and rec is not None
